@@ -5,7 +5,7 @@
 (* Cycle with the projected state after it (harness/sched_l1.py).           *)
 (* The spec is TOTAL: every line is consumed, the logged post-state is      *)
 (* adopted, and the set of failed named clauses is printed.                 *)
-EXTENDS SchedEnv, TraceLib, Json, IOUtils
+EXTENDS SchedEnv, TraceLib, Units, Json, IOUtils
 
 Batch == JsonDeserialize(IOEnv.TRACE_FILE)
 Traces == Batch.traces
@@ -85,11 +85,26 @@ CycleEx(pre, line, post) ==
   \cup E("evict", \E a \in AppNames(pre) : a \in AppNames(post) /\ pre.apps[a].server # NoServer
                        /\ post.apps[a].server # pre.apps[a].server)
 
+(* C01, units: what the loader made of a spelled record (L2 traces only) *)
+SpelledVec(sp) == <<MB(sp[1]), CPU(sp[2]), MB(sp[3])>>
+UnitsOk(line, post) ==
+  ("spells" \in DOMAIN line) =>
+    \* the vector in the model is the meaning of one of the spellings registered
+    \* for that server / written in that manifest (a record the master has not
+    \* re-read yet is staleness, not a unit error)
+    /\ \A s \in DOMAIN line.spells \cap SrvNames(post) :
+          \E k \in DOMAIN line.spells[s] : post.servers[s].cap = SpelledVec(line.spells[s][k])
+    /\ \A a \in DOMAIN line.spells \cap AppNames(post) :
+          \E k \in DOMAIN line.spells[a] : post.apps[a].demand = SpelledVec(line.spells[a][k])
+
 Verdict(pre, line, post) ==
   IF "exc" \in DOMAIN line
   THEN [fail |-> {"exc"}, ex |-> {}]
   ELSE IF line.ev \in {"Cycle", "ProbeCycle"}
-  THEN [fail |-> CycleFail(pre, line, post), ex |-> CycleEx(pre, line, post)]
+  THEN [fail |-> CycleFail(pre, line, post) \cup F("C01.units", UnitsOk(line, post)),
+        ex |-> CycleEx(pre, line, post) \cup E("units", "spells" \in DOMAIN line)]
+  ELSE IF line.ev = "L2"
+  THEN [fail |-> F("C02.prune", C02prune(post)) \cup F("C01.units", UnitsOk(line, post)), ex |-> {}]
   ELSE [fail |-> F("drift.env", EnvExplained(pre, line.ev, line.args, post, CanonScn(Traces[t].scn)))
                  \cup F("C02.prune", C02prune(post)), ex |-> {}]
 
